@@ -61,6 +61,9 @@ def configs(tier, seed):
         # single-cell segments
         {'n': [2, 3], 'blocks': [[[0, 0]], [[1, 2]], [[0, 1]]], 'second': None, 'os': 2, 'shape': [2, 3], 'prop': [2, 3]},
         {'n': [3, 2], 'blocks': [[[0, 0], [1, 0]], [[2, 1], [1, 1]]], 'second': [[[0, 0], [1, 1]], [[2, 0], [2, 1], [1, 0]]], 'os': 1, 'shape': [3, 3], 'prop': [2, 2]},
+        # one segment given as a one-layer cube
+        {'n': [3, 3], 'blocks': [[[0, 1], [1, 1], [1, 2]]], 'second': None, 'os': 1, 'shape': [3, 3], 'prop': [3, 3]},
+        {'n': [2, 3], 'blocks': [[[0, 0], [1, 2]]], 'second': [[[0, 0], [0, 1], [1, 2]]], 'os': 2, 'shape': [3, 3], 'prop': [2, 3]},
     ]
     out = fixed + out
     return out, len(out), False
@@ -89,6 +92,9 @@ def run(W, cfg):
         'mono': lt.Pupil(amplitude=A, opd=O, mask=union.copy(), pixelscale=dx, focal_length=f),
         'seg': lt.Pupil(amplitude=A, opd=O, mask=(stack.copy() if len(cfg['blocks']) > 1 else stack[0].copy()), pixelscale=dx, focal_length=f),
     }
+    if len(cfg['blocks']) == 1:
+        # the k = 1 corner of the quantifier written as a one-layer cube
+        variants['cube'] = lt.Pupil(amplitude=A, opd=O, mask=stack.copy(), pixelscale=dx, focal_length=f)
     # whole-array variant: mask of ones, amplitude already zero off the support
     Az = W.zeros(shp)
     for r in range(shp[0]):
@@ -105,6 +111,7 @@ def run(W, cfg):
         second['mono'] = lt.Pupil(amplitude=A2, opd=O2, mask=un2.copy(), pixelscale=dx, focal_length=f)
         second['seg'] = lt.Pupil(amplitude=A2, opd=O2, mask=(st2.copy() if len(cfg['second']) > 1 else st2[0].copy()), pixelscale=dx, focal_length=f)
         second['whole'] = second['mono']
+        second['cube'] = lt.Pupil(amplitude=A2, opd=O2, mask=(st2.copy() if len(cfg['second']) > 1 else st2[:1].copy()), pixelscale=dx, focal_length=f)
     res = {}
     for name, plane in variants.items():
         w = lt.Wavefront(lam) * plane
@@ -126,6 +133,9 @@ def run(W, cfg):
     W.ob('field whole=mono', res['whole'][0], res['mono'][0])
     W.ob('intensity seg=mono', res['seg'][1], res['mono'][1])
     W.ob('intensity whole=mono', res['whole'][1], res['mono'][1])
+    if 'cube' in res:
+        W.ob('field one-layer cube=mono', res['cube'][0], res['mono'][0])
+        W.ob('intensity one-layer cube=mono', res['cube'][1], res['mono'][1])
     fs = res['seg'][0]
     W.ob('intensity seg coherent', res['seg'][1], W.array([[W.abs2(fs[i, j]) for j in range(S[1])] for i in range(S[0])]))
     # and against the defining sum (ties the common value to C02's reference)
